@@ -103,8 +103,8 @@ def verify(frame):
         src, dst, proto, l4 = ip[12:16], ip[16:20], ip[9], ip[ihl:struct.unpack("!H", ip[2:4])[0]]
     else:
         src, dst, proto, l4 = ip[8:24], ip[24:40], ip[6], ip[40:]
-    if proto == 17 and l4[6:8] == b"\x00\x00" and len(src) == 4:
-        return True                     # RFC 768: no checksum transmitted (IPv4 only)
+    if proto == 17 and l4[6:8] == b"\x00\x00":
+        return len(src) == 4            # RFC 768: no checksum transmitted (IPv4 only); RFC 8200 8.1: over IPv6 a zero checksum is invalid
     return csum16(pseudo(src, dst, proto, len(l4)) + l4) == 0
 
 
@@ -178,6 +178,8 @@ def corrupt(frame, how, rng):
     elif how == "payload":
         pos = rng.randrange(l4 + (20 if proto == 6 else 8), len(b))
         b[pos] ^= 1 << rng.randrange(8)
+    elif how == "zero":             # checksum field 0x0000: "no checksum" for UDP over IPv4 (not bad), a wrong checksum everywhere else
+        b[ck:ck + 2] = b"\x00\x00"
     elif how == "swapwords":       # exchanging two 16-bit words leaves a correct checksum correct: NOT bad
         p0 = l4 + (20 if proto == 6 else 8)
         if len(b) - p0 >= 4:
@@ -198,7 +200,7 @@ def _one(job):
         return dict(machinery=traceback.format_exc()[-1500:])
     pk = []
     for i, fr in enumerate(frames):
-        how = rng.choice([None, None, None, "field", "payload", "swapwords"])
+        how = rng.choice([None, None, None, "field", "payload", "swapwords", "zero"])
         pk.append(corrupt(fr, how, rng) if how else fr)
     verdict = [verify(fr) for fr in pk]
     ts0 = 1_700_000_000_000_000
